@@ -151,6 +151,10 @@ def monitor(tr, case):
 
 
 def run_case(case, tier):
+    # a third of the runs carry a free-text title with dots and spaces (a version number, an abbreviation): the saved tables are
+    # named after the title, one per round
+    if sum(map(ord, case.get("id", ""))) % 3 == 0:
+        case = dict(case, title="run v1.5 U.S. style %s" % case["iso"])
     return pipeline.run(case, monitor)
 
 
